@@ -205,34 +205,48 @@ Definition hc_parse (family port : Z) (ai : addrinfo) (r : qres) : Z * addrinfo 
 Inductive decision := DEnd (st : Z) | DNext (st : Z).
 
 (* second half: the ladder taken when no sub-query of the name is outstanding any more *)
-Definition hc_decide (single_label : bool) (status addinfostatus : Z) (ai : addrinfo) (nodata : nat)
-  : decision * nat :=
-  if (status =? ARES_EDESTRUCTION) || (status =? ARES_ECANCELLED) then (DEnd status, nodata)
+(* hquery->nodata_cnt and hquery->nomem *)
+Record hst := mkHS { hs_nodata : nat; hs_nomem : bool }.
+Definition hst0 : hst := mkHS 0 false.
+
+(* bookkeeping done for every completed sub-query, before the ladder:
+   nomem is latched; a no-data answer is counted also when another sub-query of the name is
+   still outstanding (/repo 3eb5c71) *)
+Definition hc_note (status addinfostatus : Z) (outstanding : bool) (s : hst) : hst :=
+  mkHS (if outstanding && ((status =? ARES_ENODATA) || (addinfostatus =? ARES_ENODATA))
+        then S (hs_nodata s) else hs_nodata s)
+       (hs_nomem s || (status =? ARES_ENOMEM) || (addinfostatus =? ARES_ENOMEM)).
+
+Definition hc_decide (single_label : bool) (status addinfostatus : Z) (ai : addrinfo) (s : hst)
+  : decision * hst :=
+  let nodata := hs_nodata s in
+  if (status =? ARES_EDESTRUCTION) || (status =? ARES_ECANCELLED) then (DEnd status, s)
+  else if hs_nomem s then (DEnd ARES_ENOMEM, s)
   else if negb (addinfostatus =? ARES_SUCCESS) && negb (addinfostatus =? ARES_ENODATA) then
-    (if (addinfostatus =? ARES_EBADRESP) && negb (is_nil (ai_nodes ai)) then (DEnd ARES_SUCCESS, nodata)
-     else (DEnd addinfostatus, nodata))
-  else if negb (is_nil (ai_nodes ai)) then (DEnd ARES_SUCCESS, nodata)
+    (if (addinfostatus =? ARES_EBADRESP) && negb (is_nil (ai_nodes ai)) then (DEnd ARES_SUCCESS, s)
+     else (DEnd addinfostatus, s))
+  else if negb (is_nil (ai_nodes ai)) then (DEnd ARES_SUCCESS, s)
   else if (status =? ARES_ENOTFOUND) || (status =? ARES_ENODATA) || (addinfostatus =? ARES_ENODATA) then
     let nodata' := if (status =? ARES_ENODATA) || (addinfostatus =? ARES_ENODATA) then S nodata else nodata in
-    (DNext (if Nat.eqb nodata' 0 then status else ARES_ENODATA), nodata')
+    (DNext (if Nat.eqb nodata' 0 then status else ARES_ENODATA), mkHS nodata' (hs_nomem s))
   else if ((status =? ARES_ESERVFAIL) || (status =? ARES_EREFUSED)) && single_label then
-    (DNext (if Nat.eqb nodata 0 then status else ARES_ENODATA), nodata)
-  else (DEnd status, nodata).
+    (DNext (if Nat.eqb nodata 0 then status else ARES_ENODATA), s)
+  else (DEnd status, s).
 
 Definition ERR_INCOMPLETE : Z := -2.     (* the history ends before the request does *)
 
 (* the callbacks of one candidate name; [remaining] sub-queries are outstanding *)
 Fixpoint run_round (family port : Z) (single_label : bool) (arrivals : list qres) (remaining : nat)
-         (ai : addrinfo) (nodata : nat) : outcome (decision * addrinfo * nat) :=
+         (ai : addrinfo) (nodata : hst) : outcome (decision * addrinfo * hst) :=
   match arrivals with
   | [] => Err ERR_INCOMPLETE
   | r :: rest =>
     let '(ais, ai') := hc_parse family port ai r in
     match remaining with
     | 0%nat | 1%nat =>
-      let '(d, nodata') := hc_decide single_label (qres_status r) ais ai' nodata in
+      let '(d, nodata') := hc_decide single_label (qres_status r) ais ai' (hc_note (qres_status r) ais false nodata) in
       Ok (d, ai', nodata')
-    | S rem' => run_round family port single_label rest rem' ai' nodata
+    | S rem' => run_round family port single_label rest rem' ai' (hc_note (qres_status r) ais true nodata)
     end
   end.
 
@@ -250,8 +264,8 @@ Definition gai_file_lookup (hf : hfile) (name : str) (family port flags : Z) (ai
 Inductive lk := LB | LF.
 
 (* next_lookup while remaining_lookups points at 'b': one candidate name after the other *)
-Fixpoint dns_lookups (family port : Z) (rounds : list round) (ai : addrinfo) (nodata : nat) (status : Z)
-  : outcome (option Z * addrinfo * nat * Z) :=          (* Some st: end_hquery(st); None: names exhausted *)
+Fixpoint dns_lookups (family port : Z) (rounds : list round) (ai : addrinfo) (nodata : hst) (status : Z)
+  : outcome (option Z * addrinfo * hst * Z) :=          (* Some st: end_hquery(st); None: names exhausted *)
   match rounds with
   | [] => Ok (None, ai, nodata, status)
   | r :: rest =>
@@ -264,7 +278,7 @@ Fixpoint dns_lookups (family port : Z) (rounds : list round) (ai : addrinfo) (no
   end.
 
 Fixpoint next_lookup (hf : hfile) (name : str) (family port flags : Z) (lookups : list lk)
-         (rounds : list round) (ai : addrinfo) (nodata : nat) (status : Z) : outcome (Z * addrinfo) :=
+         (rounds : list round) (ai : addrinfo) (nodata : hst) (status : Z) : outcome (Z * addrinfo) :=
   match lookups with
   | [] => Ok (status, ai)
   | LB :: rest =>
@@ -299,7 +313,7 @@ Definition getaddrinfo (hf : hfile) (lookups : list lk) (name : str) (family : Z
     | FNone =>
       (* ares_search_name_list (property C12) may reject the name *)
       if negb (names_status =? ARES_SUCCESS) then Ok (names_status, None) else
-      do x <- next_lookup hf name family port flags lookups rounds ai_empty 0 ARES_ECONNREFUSED;
+      do x <- next_lookup hf name family port flags lookups rounds ai_empty hst0 ARES_ECONNREFUSED;
       let '(st, ai) := x in
       if st =? ARES_SUCCESS then Ok (st, Some ai) else Ok (st, None)
     end
